@@ -8,6 +8,7 @@ pub mod framework;
 pub mod diff;
 pub mod c01;
 pub mod c05;
+pub mod c06;
 pub mod c07;
 pub mod c08;
 pub mod c09;
@@ -20,6 +21,7 @@ pub mod c15;
 #[cfg(feature = "pattern")]
 pub mod c20;
 pub mod c16;
+pub mod c19;
 pub mod c17;
 pub mod c18;
 
@@ -35,7 +37,9 @@ pub fn run(cfg: &Cfg, rep: &mut Report) -> Result<(), String> {
         "c10" => c10::run(cfg, rep),
         "c09" => c09::run(cfg, rep),
         "c08" => c08::run(cfg, rep),
+        "c06" => c06::run(cfg, rep),
         "c07" => c07::run(cfg, rep),
+        "c19" => c19::run(cfg, rep),
         "c05" => c05::run(cfg, rep),
         #[cfg(feature = "utf16")]
         "c14" => c14::run(cfg, rep),
@@ -45,6 +49,7 @@ pub fn run(cfg: &Cfg, rep: &mut Report) -> Result<(), String> {
         "c16" => c16::run(cfg, rep),
         "c17" => c17::run(cfg, rep),
         "c18" => c18::run(cfg, rep),
+        "nop" => {}
         other => return Err(format!("unknown check {}", other)),
     }
     Ok(())
